@@ -115,7 +115,7 @@ def check_chains(run, cases):
 
 
 def check(run, only=None):
-    run.rule = ("chains of 1..3 links (quick: all with <= 2 links, seeded stride of 3; thorough: all with 3 and a stride of 4) over 27 "
+    run.rule = ("chains of 1..3 links (quick: all with <= 2 links, seeded stride of 3; thorough: every third with 3 links and a stride of 4) over 27 "
                 "links (25 binary operators, 'is odd', 'is not even') x 5 unary-prefix variants x 3 conditional variants (none, "
                 "trailing ?:, inner ?:); observed: AST shape from Env.Parse, rendering of the flat and of the fully parenthesised "
                 "spelling, value; non-trivial = >= 2 links; plus (binding T) 4000 (thorough 60000) seeded random chains of 2..8 operands "
